@@ -1,6 +1,6 @@
 From Coq Require Import extraction.Extraction extraction.ExtrOcamlBasic.
-From TU Require Import Base C01_Model.
+From TU Require Import Base C01_Model C01_UAX29.
 Definition run := run_C01.
 Definition check := check_C01.
-Definition agree (inp m i : val) : bool := agree_C01 inp m i.
+Definition agree (inp m i : val) : bool := agree_C01 inp m i && uax29_agree inp.
 Extraction "model.ml" run check agree.
